@@ -500,20 +500,43 @@ pub fn c09_strategy_p(max_len: usize, transports: BoxedStrategy<Transport>, with
                 }
                 id += 1;
             }
+            // now and then a request the library refuses after its head (an expectation it does not
+            // know) stands in front of the last one, with a body the client sends all the same: it is
+            // answered 417 and nothing behind its head is taken for a request
+            if (conv.reqs.len() * 5 + progs.len() * 3 + conv.reqs[0].headers.len()) % 9 == 4 {
+                let blen = [5usize, 300, 1500][(conv.reqs[0].headers.len() + conv.reqs.len()) % 3];
+                let mut r = build_req(id, "POST".into(), "/refused".into(), "HTTP/1.1", vec![Hdr::new("Host", "h")], Framing::Length { n: blen }, None, 1, 0, None, false);
+                // (a body that would make a fine request if it were read as one)
+                let mut body = smuggled_bytes();
+                body.resize(blen.max(body.len()), b' ');
+                r.framing = Framing::Length { n: body.len() };
+                for h in r.headers.iter_mut() {
+                    if h.name.eq_ignore_ascii_case("content-length") {
+                        h.value = body.len().to_string();
+                    }
+                }
+                r.body_override = Some(body);
+                r.mal = Some(Malform::Expect(["200-ok", "100-continuee"][conv.reqs.len() % 2].to_string()));
+                conv.reqs.push(r);
+                progs.push(Prog::ok());
+                id += 1;
+            }
             // always end with a plain sentinel so that the last body has a follower
             conv.reqs.push(sentinel(id));
             progs.push(Prog::ok());
-            let rd = render(&conv);
+            let case0 = ConvCase { conv, progs, script: vec![], transport };
+            let n_finals = crate::conv::expect(&case0).msgs.len();
+            let rd = render(&case0.conv);
             let total = rd.bytes.len();
             let script = if split && total > 8 {
                 // cut inside the first body
                 let r0 = &rd.ranges[0];
                 let cut = r0.head_end + (r0.end - r0.head_end) / 2;
-                vec![Step::Send { from: 0, to: cut.max(1) }, Step::Send { from: cut.max(1), to: total }, Step::AwaitFinals(conv.reqs.len()), Step::HalfClose]
+                vec![Step::Send { from: 0, to: cut.max(1) }, Step::Send { from: cut.max(1), to: total }, Step::AwaitFinals(n_finals), Step::HalfClose]
             } else {
-                vec![Step::Send { from: 0, to: total }, Step::AwaitFinals(conv.reqs.len()), Step::HalfClose]
+                vec![Step::Send { from: 0, to: total }, Step::AwaitFinals(n_finals), Step::HalfClose]
             };
-            ConvCase { conv, progs, script, transport }
+            ConvCase { script, ..case0 }
         })
         .boxed()
 }
